@@ -114,6 +114,7 @@ def _eval_case(L, case: dict, out: dict) -> dict:
             # arguments are whatever the traversal finds, through bodies of any depth)
             o4 = L.observe_public(R, drop=True)
             out["drop_same"] = bool(o4["ok"]) == (out["verdict"] == "ok")
+            out["drop_verdict"] = "ok" if o4["ok"] else str(o4.get("err"))
             for k, w in L.oracle(ap, o4):
                 if (k, w) not in out["oracle"]:
                     out["oracle"].append((k, "via spox.build(drop_unused_inputs=True): " + w))
@@ -583,7 +584,14 @@ def run(ck: core.Check, prove: bool = True):
         ck.broken("correspondence", f"harness: {len(infra)} case(s) could not be evaluated", infra[0]["infra_error"])
     todo = [r for r in results if "ap" in r and "verdict" in r]
     try:
-        answers = ck.driver().ask_many("C04", [L.ap_for_model(r["ap"]) for r in todo])
+        def _req(r):
+            q = L.ap_for_model(r["ap"])
+            if r.get("drop_verdict") is not None and r["ap"]["graphs"][0]["args"] is not None:
+                # the model of `spox.build(..., drop_unused_inputs=True)` on the same program
+                q["pub_inputs"] = list(r["ap"]["graphs"][0]["args"])
+            return q
+
+        answers = ck.driver().ask_many("C04", [_req(r) for r in todo])
         if len(answers) != len(todo):
             raise RuntimeError(f"driver answered {len(answers)} of {len(todo)} requests")
         ck.log(f"driver answered {len(answers)} requests")
@@ -659,6 +667,15 @@ def run(ck: core.Check, prove: bool = True):
                     want = "ok" if m.get("ok") else str(m.get("err"))
                     if want != r["internal_verdict"]:
                         mismatch("error-class of build_main", ap, r["internal_verdict"], want)
+                if m.get("pub") is not None:
+                    # `publicBuild p inputs true` vs the real `spox.build(..., drop_unused_inputs=True)`
+                    stats["facets_compared"]["public_build_drop"] = stats["facets_compared"].get("public_build_drop", 0) + 1
+                    pm = m["pub"]
+                    pverd = ("ok" if pm.get("struct_ok") else "Validation") if pm.get("ok") else str(pm.get("err"))
+                    if pverd != r["drop_verdict"]:
+                        mismatch("publicBuild (drop_unused_inputs=True): error class", ap, r["drop_verdict"], pverd)
+                    elif pm.get("ok") and r.get("drop_inputs") is not None and pm.get("inputs") != r["drop_inputs"][0]:
+                        mismatch("publicBuild (drop_unused_inputs=True): model inputs", ap, r["drop_inputs"][0], pm.get("inputs"))
                 if m.get("ok"):
                     # the bridge to C01's program model, evaluated by the driver on this case:
                     # the emission rendered as a Prog.EGraph is the same emission, the translated
@@ -716,7 +733,7 @@ def run(ck: core.Check, prove: bool = True):
             stats["main_input_read_only_at_depth>=2"] = stats.get("main_input_read_only_at_depth>=2", 0) + 1
         if r["case"].get("amb") is not None:
             stats["under_ambient_settings"] = stats.get("under_ambient_settings", 0) + 1
-        if r["case"].get("pal") is not None and (r["case"]["pal"] >> 3) & 3 == 3:
+        if r["case"].get("pal") is not None and (r["case"]["pal"] >> 3) & 7 == 7:
             stats["mixed_opset_modules"] = stats.get("mixed_opset_modules", 0) + 1
     for facet, n in stats["facets_unobservable"].items():
         ck.broken("correspondence", f"{facet} not observable on {n} case(s): the Builder's internals changed shape", unobs_first[facet])
